@@ -247,7 +247,10 @@ func (r *Rule) doEvaluate(logger debuglog.Logger, phase types.RulePhase, tx *Tra
 			for _, c := range ecol {
 				if c.Variable == v.Variable {
 					// TODO shall we check the pointer?
-					v.Exceptions = append(v.Exceptions, ruleVariableException{c.KeyStr, c.KeyRx})
+					// v is a copy of the rule's variable but its Exceptions slice still shares the backing
+					// array with the rule, which is shared by all the transactions: the capacity is capped
+					// so that append never writes into it.
+					v.Exceptions = append(v.Exceptions[:len(v.Exceptions):len(v.Exceptions)], ruleVariableException{c.KeyStr, c.KeyRx})
 				}
 			}
 
